@@ -456,3 +456,183 @@ pub fn compare(got: &[Ev], want: &Script) -> Result<u32, String> {
 pub fn show_events(evs: &[Ev]) -> String {
   evs.iter().map(crate::world::show_ev).collect::<Vec<_>>().join(" ")
 }
+
+// ---------------------------------------------------------------- two-input timeline semantics
+
+use crate::cat::Op2;
+
+/// `timeline`: merged sequence of (side, event); side 0 = main/first input, 1 = other/notifier.
+/// Events of a side after that side's own terminal are ignored (the hot handle drops them).
+pub fn sem2(op: Op2, timeline: &[(usize, Ev)], alt: bool) -> Vec<Ev> {
+  let mut out: Vec<Ev> = vec![];
+  let mut done = false;
+  let mut side_done = [false, false];
+  let mut completed = [false, false];
+  // state
+  let mut qa: std::collections::VecDeque<Val> = Default::default();
+  let mut qb: std::collections::VecDeque<Val> = Default::default();
+  let mut la: Option<Val> = None;
+  let mut lb: Option<Val> = None;
+  let mut skipping = true;
+  let mut pending: Option<Val> = None;
+  let mut buf: Vec<Val> = vec![];
+  macro_rules! term {
+    ($e:expr) => {{
+      if !done {
+        out.push($e);
+        done = true;
+      }
+    }};
+  }
+  for (side, ev) in timeline {
+    let side = *side;
+    if side_done[side] {
+      continue;
+    }
+    if !matches!(ev, Ev::Next(_)) {
+      side_done[side] = true;
+    }
+    if done {
+      continue;
+    }
+    match op {
+      Op2::Merge => match ev {
+        Ev::Next(v) => out.push(Ev::Next(v.clone())),
+        Ev::Err(e) => term!(Ev::Err(e.clone())),
+        Ev::Complete => {
+          completed[side] = true;
+          if completed[0] && completed[1] {
+            term!(Ev::Complete)
+          }
+        }
+      },
+      Op2::Zip => match ev {
+        Ev::Next(v) => {
+          if side == 0 {
+            if let Some(b) = qb.pop_front() {
+              out.push(Ev::Next(Val::pair(v.clone(), b)));
+            } else {
+              qa.push_back(v.clone());
+            }
+          } else if let Some(a) = qa.pop_front() {
+            out.push(Ev::Next(Val::pair(a, v.clone())));
+          } else {
+            qb.push_back(v.clone());
+          }
+          if alt && ((completed[0] && qa.is_empty()) || (completed[1] && qb.is_empty())) {
+            term!(Ev::Complete)
+          }
+        }
+        Ev::Err(e) => term!(Ev::Err(e.clone())),
+        Ev::Complete => {
+          completed[side] = true;
+          if completed[0] && completed[1] {
+            term!(Ev::Complete)
+          } else if alt && ((side == 0 && qa.is_empty()) || (side == 1 && qb.is_empty())) {
+            term!(Ev::Complete)
+          }
+        }
+      },
+      Op2::CombineLatest => match ev {
+        Ev::Next(v) => {
+          if side == 0 {
+            la = Some(v.clone())
+          } else {
+            lb = Some(v.clone())
+          }
+          if let (Some(a), Some(b)) = (&la, &lb) {
+            out.push(Ev::Next(Val::pair(a.clone(), b.clone())));
+          }
+        }
+        Ev::Err(e) => term!(Ev::Err(e.clone())),
+        Ev::Complete => {
+          completed[side] = true;
+          if completed[0] && completed[1] {
+            term!(Ev::Complete)
+          }
+        }
+      },
+      Op2::WithLatestFrom => match (side, ev) {
+        (0, Ev::Next(v)) => {
+          if let Some(b) = &lb {
+            out.push(Ev::Next(Val::pair(v.clone(), b.clone())));
+          }
+        }
+        (_, Ev::Next(v)) => lb = Some(v.clone()),
+        (_, Ev::Err(e)) => term!(Ev::Err(e.clone())),
+        (0, Ev::Complete) => term!(Ev::Complete),
+        (_, Ev::Complete) => {}
+      },
+      Op2::TakeUntil => match (side, ev) {
+        (0, Ev::Next(v)) => out.push(Ev::Next(v.clone())),
+        (0, Ev::Err(e)) => term!(Ev::Err(e.clone())),
+        (0, Ev::Complete) => term!(Ev::Complete),
+        (_, Ev::Next(_)) => term!(Ev::Complete),
+        (_, _) => {}
+      },
+      Op2::SkipUntil => match (side, ev) {
+        (0, Ev::Next(v)) => {
+          if !skipping {
+            out.push(Ev::Next(v.clone()))
+          }
+        }
+        (0, Ev::Err(e)) => term!(Ev::Err(e.clone())),
+        (0, Ev::Complete) => term!(Ev::Complete),
+        (_, Ev::Next(_)) => skipping = false,
+        (_, Ev::Complete) => {
+          if !alt {
+            skipping = false
+          }
+        }
+        (_, Ev::Err(_)) => {}
+      },
+      Op2::Sample => match (side, ev) {
+        (0, Ev::Next(v)) => pending = Some(v.clone()),
+        (_, Ev::Err(e)) => term!(Ev::Err(e.clone())),
+        (0, Ev::Complete) => term!(Ev::Complete),
+        (_, Ev::Next(_)) | (_, Ev::Complete) => {
+          if let Some(v) = pending.take() {
+            out.push(Ev::Next(v));
+          }
+        }
+      },
+      Op2::Buffer => match (side, ev) {
+        (0, Ev::Next(v)) => buf.push(v.clone()),
+        (_, Ev::Err(e)) => term!(Ev::Err(e.clone())),
+        (_, Ev::Complete) => {
+          if !buf.is_empty() {
+            out.push(Ev::Next(Val::L(std::mem::take(&mut buf))));
+          }
+          term!(Ev::Complete)
+        }
+        (_, Ev::Next(_)) => {
+          if !buf.is_empty() {
+            out.push(Ev::Next(Val::L(std::mem::take(&mut buf))));
+          }
+        }
+      },
+    }
+  }
+  out
+}
+
+pub fn has_alt2(op: Op2) -> bool {
+  matches!(op, Op2::Zip | Op2::SkipUntil)
+}
+
+pub fn compare_events(got: &[Ev], want: &[Ev]) -> Result<u32, String> {
+  if got.len() != want.len() {
+    return Err(format!("length {} vs expected {}", got.len(), want.len()));
+  }
+  let mut t = crate::val::tt();
+  for (i, (g, x)) in got.iter().zip(want.iter()).enumerate() {
+    match (g, x) {
+      (Ev::Next(a), Ev::Next(b)) | (Ev::Err(a), Ev::Err(b)) => {
+        t = crate::val::b_and(t, a.eq_t(b));
+      }
+      (Ev::Complete, Ev::Complete) => {}
+      _ => return Err(format!("event {} kind differs", i)),
+    }
+  }
+  Ok(t)
+}
